@@ -32,8 +32,23 @@ OKSet  == {q \in Procs : CanOK(q)}
 ErrSet == {q \in Procs : CanCancel(q)}
 Pend   == {q \in Procs : st[q] = "pending"}
 
+(* The kind of context is not an input the semaphore's behaviour depends on;  *)
+(* the generator walks through all kinds deterministically (by position and   *)
+(* process) and emits, with every Acquire, the kind and the error value the   *)
+(* specification says Acquire has to return if it ends by the context.        *)
+KindSeq == <<"cancel", "cancelcause", "deadline", "timeoutcause", "sentinel", "deadlinecause",
+             "afterfunc", "nested">>
+KindAt(i, p, c) == LET k == KindSeq[((i + 3 * p) % Len(KindSeq)) + 1] IN
+                   \* an already-done timeout / deadline context: alternately the expired one
+                   IF c = "done" /\ k \in {"timeoutcause", "deadlinecause"} /\ i % 2 = 0
+                     THEN IF k = "timeoutcause" THEN "timeoutcause.expired" ELSE "deadlinecause.expired"
+                     ELSE k
+
 Ev(name, p, c) ==
     [ev |-> name, p |-> p, ctx |-> c, ret |-> <<>>,
+     kind |-> IF name = "start" THEN kind'[p] ELSE "",
+     want |-> IF name = "start" THEN ErrOf(kind'[p]) ELSE "",
+     cause |-> IF name = "start" THEN CauseOf(kind'[p]) ELSE "",
      mayok |-> SetToSeq(OKSet'), mayerr |-> SetToSeq(ErrSet'),
      count |-> count', pend |-> SetToSeq(Pend')]
 
@@ -49,16 +64,17 @@ Input ==
     /\ Len(hist) < Depth
     /\ \/ \E p \in Procs : \E c \in {"live", "done"} :
             /\ InOrder(p) /\ (c = "done" => DoneStarts < MaxDone)
-            /\ StartAcquire(p, c)
+            /\ StartAcquireK(p, c, KindAt(Len(hist), p, c))
             /\ hist' = Append(hist, Ev("start", p, c))
        \/ /\ (N > 0 \/ Pend = {})
-          /\ ReleaseEffect /\ rel' = rel + 1 /\ UNCHANGED <<st, ctx, calls, res, acq>>
+          /\ ReleaseEffect /\ rel' = rel + 1 /\ UNCHANGED <<st, ctx, calls, res, acq, kind>>
           /\ hist' = Append(hist, Ev("release", 0, ""))
        \* N = 0 at a quiescent state: every pending Acquire is blocked in its select, so
        \* the receive of Release meets one of them (which one is up to the runtime)
        \/ \E p \in Pend :
             /\ ReleaseHandoff(p)
             /\ hist' = Append(hist, [ev |-> "release", p |-> 0, ctx |-> "", ret |-> << <<p, "ok">> >>,
+                                     kind |-> "", want |-> "", cause |-> "",
                                      mayok |-> SetToSeq(Pend), mayerr |-> <<>>,
                                      count |-> count', pend |-> SetToSeq(Pend')])
        \/ \E p \in Procs :
@@ -91,5 +107,5 @@ OneResponse ==
         /\ Len(h.ret) <= 1
         /\ ((i < Len(hist) \/ Quiescent) =>
               (Len(h.ret) = 1) = (Len(h.mayok) + Len(h.mayerr) > 0))
-GenOK == HoldersBound /\ OneResponse
+GenOK == HoldersBound /\ OneResponse /\ ReturnsCtxErr
 =============================================================================
